@@ -320,6 +320,37 @@ export async function run(ctx) {
         }
     }
   }
+  // impostors: objects that inherit from a built-in prototype without being one, subclasses, built-ins
+  // with own properties, built-ins beff has no type for - bare and wrapped, against Map / Set / Date /
+  // typed-array / unknown / object validators. Judged: nothing throws but parse's documented error,
+  // the three entry points agree, accepted data is accepted and parsed again.
+  if (ctx.shard === 4 % ctx.of) {
+    const { IMPOSTOR_PROGRAM, impostorValues, IMPOSTOR_WRAPS } = await import("../gen/valgen.mjs");
+    const r = await compileText(ctx, IMPOSTOR_PROGRAM);
+    if (!r.parsers) throw new Error("C03 impostor program does not compile");
+    for (const [pn, parser] of Object.entries(r.parsers))
+      for (const wn of Object.keys(IMPOSTOR_WRAPS))
+        for (const vn of Object.keys(impostorValues()))
+          for (const o of [OPTION_SETS[0], OPTION_SETS[1], OPTION_SETS[2]]) {
+            const v = IMPOSTOR_WRAPS[wn](impostorValues()[vn]);
+            const va = call(() => parser.validate(v, o)), sp = call(() => parser.safeParse(v, o)), pr = call(() => parser.parse(v, o));
+            ctx.judged();
+            ctx.count("impostor_triples");
+            let f = null;
+            if (!va.ok) f = { clause: "validate-threw", detail: String(va.e && va.e.message).slice(0, 120) };
+            else if (!sp.ok) f = { clause: "safeParse-threw", detail: String(sp.e && sp.e.message).slice(0, 120) };
+            else if (va.v !== sp.v.success) f = { clause: "validate-vs-safeParse", detail: `validate=${va.v} safeParse.success=${sp.v.success}` };
+            else if (va.v !== pr.ok) f = { clause: "validate-vs-parse", detail: `validate=${va.v} parse ${pr.ok ? "returned" : "threw " + String(pr.e && pr.e.message).slice(0, 100)}` };
+            else if (!pr.ok) {
+              if (!(pr.e instanceof Error) || typeof pr.e.message !== "string" || !pr.e.message.startsWith(`Failed to parse ${pn} - `)) f = { clause: "parse-threw-undocumented", detail: String(pr.e && pr.e.message).slice(0, 120) };
+            } else {
+              const v2 = call(() => parser.validate(sp.v.data, o));
+              if (!v2.ok || v2.v !== true) f = { clause: "data-not-accepted", detail: `validate(data)=${v2.ok ? v2.v : "threw " + String(v2.e && v2.e.message).slice(0, 80)}` };
+              else if (!call(() => parser.parse(sp.v.data, o)).ok) f = { clause: "reparse-threw", detail: "" };
+            }
+            if (f) ctx.violation({ signature: `${f.clause}|impostor:${vn}`, clause: f.clause, detail: `${f.detail} :: parser ${pn} of the impostor program on ${wn}(${vn}) options=${optKey(o)}`, replay: { kind: "impostor", parser: pn, wrap: wn, value: vn, options: o } });
+          }
+  }
   // very large containers (mostly of wrong items): the three entry points still agree and none throws
   if (ctx.shard === 2 % ctx.of) {
     const { bulkValues, BULK_PROGRAM } = await import("../gen/valgen.mjs");
@@ -413,6 +444,15 @@ export async function replay(ctx, c) {
     const v0 = bulkValues().find(([n]) => n === c.value)[1];
     const f0 = checkTriple(r0.parsers[c.parser], c.parser, v0, c.options ?? {}, null, null);
     return { violated: !!f0, fault: f0, value: c.value };
+  }
+  if (c.kind === "impostor") {
+    const { IMPOSTOR_PROGRAM, impostorValues, IMPOSTOR_WRAPS } = await import("../gen/valgen.mjs");
+    const r0 = await compileText(ctx, IMPOSTOR_PROGRAM);
+    const v0 = IMPOSTOR_WRAPS[c.wrap](impostorValues()[c.value]);
+    const p0 = r0.parsers[c.parser];
+    const rs = [call(() => p0.validate(v0, c.options)), call(() => p0.safeParse(v0, c.options)), call(() => p0.parse(v0, c.options))];
+    const bad = !rs[0].ok || !rs[1].ok || rs[0].v !== rs[1].v.success || rs[0].v !== rs[2].ok || (!rs[2].ok && !String(rs[2].e && rs[2].e.message).startsWith(`Failed to parse ${c.parser} - `));
+    return { violated: bad, value: `${c.wrap}(${c.value})`, results: rs.map((x) => (x.ok ? "returned" : "threw " + String(x.e && x.e.message).slice(0, 80))) };
   }
   if (c.kind === "adhoc") return { violated: false, note: "ad-hoc validators are rebuilt from the seed; replay by re-running the shard", describe: c.describe };
   const r = await compileText(ctx, c.text);
